@@ -32,6 +32,9 @@ partial def modelLoop (h : IO.FS.Stream) (out : IO.FS.Stream) (st : Option State
     | .invalid, some s => do
       for ln in blockLines l .invalid [] s do out.putStrLn ln
       modelLoop h out (some s)
+    | .unknownCtx, some s => do
+      for ln in blockLines l (.err .unknownRequestContext) [] s do out.putStrLn ln
+      modelLoop h out (some s)
     | .op o, some s => do
       let (s', r, e) := step s o
       for ln in blockLines l r e s' do out.putStrLn ln
